@@ -261,6 +261,24 @@ func (db *DB) replayAndSetupWriteAheadLog() error {
 		log.Printf("done replaying WAL in %v with %d records\n", elapsedDuration, numRecords)
 	}
 
+	// the log files must go oldest first: if the process dies in between, the remaining newer files are replayed
+	// again on top of the table that already contains them, which is harmless. Replaying only older ones is not.
+	walEntries, err := os.ReadDir(walBasePath)
+	if err != nil {
+		return err
+	}
+	var walFileNames []string
+	for _, entry := range walEntries {
+		walFileNames = append(walFileNames, entry.Name())
+	}
+	sort.Strings(walFileNames)
+	for _, name := range walFileNames {
+		err = os.RemoveAll(filepath.Join(walBasePath, name))
+		if err != nil {
+			return err
+		}
+	}
+
 	err = os.RemoveAll(walBasePath)
 	if err != nil {
 		return err
